@@ -1,6 +1,7 @@
 import Fabio.Lemmas.C05Main
 import Fabio.Lemmas.C05Text
 import Fabio.Lemmas.C05Rebuild
+import Fabio.Lemmas.C05Glue
 /-!
 C05 — route commands mean what the command language says: property theorems.
 
@@ -17,6 +18,7 @@ targets, every host accepted by `glob.Compile`.
 namespace Fabio.Props.C05
 open Fabio Fabio.Model.Route Fabio.Model.Parse Fabio.Model.C05Spec
 open Fabio.Lemmas Fabio.Lemmas.C05Main
+open Fabio.Model.C05Glue
 
 variable {env : Env} {t t1 t' : Table} {d : RouteDef}
 
@@ -381,6 +383,205 @@ theorem render_parse_roundtrip_exact (pf : ParseFloat)
     rw [hn, weigh_forget_weight]
     exact hg.inv.weighed (h, rs0) (C05Del.mem_of_lookup hlk) r hm
 
+/-! ### round 3: the glue around the command core (`Model/C05Glue.lean`)
+
+`ParseAliases` — the second reader of the command language, which `main.go` runs on every configuration text before
+`NewTable` — `validWeight`, the option-derived target fields, and the admin endpoint that prints the table. -/
+
+section glue
+variable {pf : ParseFloat} {text : Str}
+
+/-- **aliases_agree_with_parse**: every text `Parse` accepts is accepted by `ParseAliases`, which returns exactly the
+`register` options of the parsed definitions, in order -/
+theorem aliases_agree_with_parse {defs : List RouteDef} (h : parse pf text = .ok defs) :
+    parseAliases pf text = .ok (registerNames defs) := by
+  unfold parseAliases
+  rw [C05Glue.aliasDefs_rawLines, (C05Glue.alias_transfer pf 1 (rawLines text)).1 defs (by rw [← C05Glue.parse_eq_scan]; exact h)]
+
+/-- **aliases_same_syntax_error**: a syntax error is reported by both readers, for the same line -/
+theorem aliases_same_syntax_error {j : Nat} {e : SynErr} (h : parse pf text = .error (.syn j e)) :
+    parseAliases pf text = .error (.syn j e) := by
+  unfold parseAliases
+  rw [C05Glue.aliasDefs_rawLines, (C05Glue.alias_transfer pf 1 (rawLines text)).2 j e (by rw [← C05Glue.parse_eq_scan]; exact h)]
+
+/-- **aliases_differ_only_outside**: when `ParseAliases` succeeds, `Parse` yields the same definitions (hence the
+same names) unless it stops at a line of 64 KiB or more (`ParseAliases` has no line limit) or at a non-finite
+weight (`ParseAliases` does not look at weights; `NewTable` refuses such a text, `nonfinite_weight_never_loads`) -/
+theorem aliases_differ_only_outside {names : List Str} (h : parseAliases pf text = .ok names) :
+    (∃ defs, parse pf text = .ok defs ∧ registerNames defs = names) ∨
+    (∃ j, parse pf text = .error (.tooLong j)) ∨ (∃ j v, parse pf text = .error (.nonFinite j v)) := by
+  unfold parseAliases at h
+  rw [C05Glue.aliasDefs_rawLines] at h
+  cases hs : scan false (parseLine (finPf pf)) 1 (rawLines text) with
+  | error e => rw [hs] at h; cases h
+  | ok defs =>
+    rw [hs] at h
+    injection h with h
+    rw [C05Glue.parse_eq_scan]
+    rcases C05Glue.scan_alias_back pf 1 (rawLines text) defs hs with h1 | h1 | h1
+    · exact .inl ⟨defs, h1, h⟩
+    · exact .inr (.inl h1)
+    · exact .inr (.inr h1)
+
+/-- only `route add` lines contribute names: `route del` and `route weight` carry no options -/
+theorem aliases_only_from_adds {l : Str} {d : RouteDef} (h : parseLine pf l = .ok (some d)) (hc : d.cmd ≠ .add) :
+    d.opts = [] := by
+  rw [C05Glue.parseLine_shape] at h
+  generalize hs : C05Glue.shape (trimSpace l) = sh at h
+  unfold C05Glue.shape at hs
+  split at hs
+  · subst hs; cases h
+  · split at hs
+    · cases hm : matchAdd (trimSpace l) with
+      | none => rw [hm] at hs; subst hs; cases h
+      | some m =>
+        rw [hm] at hs; subst hs
+        simp only [C05Glue.runShape] at h
+        cases hw : parseWeight pf m.weight with
+        | error e => rw [hw] at h; cases h
+        | ok q => rw [hw] at h; injection h with h; injection h with h; subst h; exact absurd rfl hc
+    · split at hs
+      · cases h1 : matchDelSvcTags (trimSpace l) with
+        | some st => rw [h1] at hs; subst hs; injection h with h; injection h with h; subst h; rfl
+        | none =>
+          rw [h1] at hs
+          cases h2 : matchDelTags (trimSpace l) with
+          | some tg => rw [h2] at hs; subst hs; injection h with h; injection h with h; subst h; rfl
+          | none =>
+            rw [h2] at hs
+            cases h3 : matchDel (trimSpace l) with
+            | some x => rw [h3] at hs; subst hs; injection h with h; injection h with h; subst h; rfl
+            | none => rw [h3] at hs; subst hs; cases h
+      · split at hs
+        · cases h1 : matchWeightSvc (trimSpace l) with
+          | some x =>
+            rw [h1] at hs; subst hs
+            simp only [C05Glue.runShape] at h
+            cases hw : parseWeight pf x.2.2.1 with
+            | error e => rw [hw] at h; cases h
+            | ok q => rw [hw] at h; injection h with h; injection h with h; subst h; rfl
+          | none =>
+            rw [h1] at hs
+            cases h2 : matchWeightSrc (trimSpace l) with
+            | some x =>
+              rw [h2] at hs; subst hs
+              simp only [C05Glue.runShape] at h
+              cases hw : parseWeight pf x.2.1 with
+              | error e => rw [hw] at h; cases h
+              | ok q => rw [hw] at h; injection h with h; injection h with h; subst h; rfl
+            | none => rw [h2] at hs; subst hs; cases h
+        · subst hs; cases h
+
+/-- **aliases_of_rendered_table**: the text `String()` writes for a table (under the hypotheses of the round trip
+that concern the text) is accepted by `ParseAliases` too, which finds the `register` options of the targets in
+rendering order -/
+theorem aliases_of_rendered_table
+    (hpf : ∀ w : Rat, 0 < w → pf (fmt4 w) = some (.fin (round4Rat w)))
+    (htext : ∀ hst, ∀ r ∈ t.get hst, ∀ tg ∈ r.targets, C05Text.TextOK r tg) :
+    parseAliases pf (render t) = .ok (registerNames (defsOfTable t)) :=
+  aliases_agree_with_parse (C05Text.parse_render pf hpf t htext)
+
+/-- **finite_weights_conservative**: on a text without non-finite weights the model that is total over float64
+weights is `loadTable` — every theorem above about `NewTable` is about `loadTableW` -/
+theorem finite_weights_conservative {defs : List RouteDef} (h : parse pf text = .ok defs) :
+    loadTableW env pf text =
+      (match newTable env defs with
+       | .ok t => .ok t
+       | .error e => .error (.cmd (.table e))) := by
+  unfold loadTableW parseW
+  rw [(C05Glue.parseW_transfer pf 1 (rawLines text)).1 defs (by rw [← C05Glue.parse_eq_scan]; exact h)]
+  dsimp only
+  rw [C05Glue.newTableW_fin env _ (by
+    intro x hx
+    obtain ⟨d, _, rfl⟩ := List.mem_map.1 hx
+    rfl)]
+  rw [List.map_map]
+  have : (defs.map ((fun x : WDef => x.d) ∘ fun d => ({ d, bad := false } : WDef))) = defs := by
+    have : ∀ l : List RouteDef, l.map ((fun x : WDef => x.d) ∘ fun d => ({ d, bad := false } : WDef)) = l := by
+      intro l; induction l with
+      | nil => rfl
+      | cons a l ih => rw [List.map_cons, ih]; rfl
+    exact this defs
+  rw [this]
+  cases newTable env defs <;> rfl
+
+/-- **refines_spec_total**: `refines_spec` for commands whose weight is any float64 — the table abstracts to what
+the spec machine with "a non-finite weight is refused" computes: same error (which command fails first, with which
+error) or same map -/
+theorem refines_spec_total (xs : List WDef) : (newTableW env xs).map abs = specRunW env xs :=
+  C05Glue.refinesW_spec env xs
+
+/-- syntax errors and over-long lines are reported as before -/
+theorem syntax_errors_unchanged {j : Nat} {e : SynErr} (h : parse pf text = .error (.syn j e)) :
+    loadTableW env pf text = .error (.parse (.syn j e)) := by
+  unfold loadTableW parseW
+  rw [(C05Glue.parseW_transfer pf 1 (rawLines text)).2.1 j e (by rw [← C05Glue.parse_eq_scan]; exact h)]
+
+theorem too_long_unchanged {j : Nat} (h : parse pf text = .error (.tooLong j)) :
+    loadTableW env pf text = .error (.parse (.tooLong j)) := by
+  unfold loadTableW parseW
+  rw [(C05Glue.parseW_transfer pf 1 (rawLines text)).2.2 j (by rw [← C05Glue.parse_eq_scan]; exact h)]
+
+/-- **nonfinite_weight_never_loads**: a text in which some `route add` / `route weight` carries a weight that
+`strconv.ParseFloat` accepts as NaN or ±Inf never yields a table (it ends in a syntax error of a later line, or in
+the first command that fails — `invalid weight` at the latest) -/
+theorem nonfinite_weight_never_loads {j : Nat} {v : F64} (h : parse pf text = .error (.nonFinite j v)) :
+    ∀ t, loadTableW env pf text ≠ .ok t := by
+  intro t ht
+  unfold loadTableW parseW at ht
+  rw [C05Glue.parse_eq_scan] at h
+  rcases C05Glue.scan_nonFinite pf 1 (rawLines text) j v h with ⟨e, he⟩ | ⟨xs, hxs, x, hx, hb, hc⟩
+  · rw [he] at ht; cases ht
+  · rw [hxs] at ht
+    dsimp only at ht
+    obtain ⟨e, he⟩ := C05Glue.foldW_bad env xs x hx hb hc []
+    unfold newTableW at ht
+    rw [he] at ht
+    cases ht
+
+/-- **invalid_weight_only_for_nonfinite**: `route: invalid weight` is the answer to a non-finite weight only -/
+theorem invalid_weight_only_for_nonfinite {x : WDef} (h : applyW env t x = .error .invalidWeight) : x.bad = true :=
+  C05Glue.applyW_invalidWeight env t x h
+
+/-- **redirect_code_range**: whatever the `redirect` option says, the target's redirect code is 0 (none) or a
+3xx code -/
+theorem redirect_code_range (o : List (Str × Str)) :
+    (derive o).redirect = 0 ∨ (300 ≤ (derive o).redirect ∧ (derive o).redirect ≤ 399) :=
+  C05Glue.redirect_range _
+
+/-- **derived_fields_survive_round_trip**: in the table rebuilt from the text (`render_parse_roundtrip`), every
+target has the same option-derived fields (strip, prepend, host, auth scheme, TLS verification, PROXY protocol,
+redirect code) as the target it came from — options are a Go map: keys unique -/
+theorem derived_fields_survive_round_trip {t2 : Table}
+    (ha : abs t2 = fun h p => weigh ((abs t h p).map norm4))
+    (hk : ∀ h p, ∀ x ∈ abs t h p, (x.opts.map (·.1)).Nodup) (h p : Str) :
+    (abs t2 h p).map (fun x => derive x.opts) = (abs t h p).map (fun x => derive x.opts) := by
+  rw [ha]
+  have h1 : ∀ ts : List Target, (weigh ts).map (fun x => derive x.opts) = ts.map (fun x => derive x.opts) := by
+    intro ts
+    have := congrArg (List.map (fun x : Target => derive x.opts)) (weigh_core ts)
+    rw [List.map_map, List.map_map] at this
+    exact this
+  rw [h1, List.map_map]
+  apply List.map_congr_left
+  intro x hx
+  simp only [Function.comp, norm4]
+  exact C05Glue.derive_sortOpts x.opts (hk h p x hx)
+
+/-- **raw_api_reloads**: what `GET /api/routes?raw` prints (`t.String()` and a newline) is read by `NewTable`
+exactly like `t.String()` — the round-trip theorems apply to it -/
+theorem raw_api_reloads (t : Table) : loadTable env pf (apiRaw t) = loadTable env pf (render t) := by
+  unfold loadTable apiRaw
+  rw [C05Glue.parse_append_nl]
+
+/-- **api_lists_the_routing_map**: the JSON listing of `/api/routes` has an entry for a target exactly when the
+routing map `abs` holds that target, and the entry names the host and path it is routed at -/
+theorem api_lists_the_routing_map (hw : WF t) (a : ApiRoute) :
+    a ∈ apiRoutes t ↔ ∃ h p, ∃ tg ∈ abs t h p, a = apiEntry ⟨h, p, abs t h p⟩ tg :=
+  C05Glue.api_lists_abs hw a
+
+end glue
+
 /-! ### the forced hypotheses are necessary (witnesses; the same inputs are replayed on the real code from
 `corpus/c05.roundtrip.jsonl`, where they are recorded findings) -/
 
@@ -472,6 +673,44 @@ example : addRoute C05Add.env0 C05Add.tab0 C05Add.dB = .ok C05Add.tab1 ∧
   ⟨C05Add.add_B, add_idempotent ⟨C05Add.inv_tab0, fun _ _ => rfl⟩ C05Add.add_B, by decide +kernel⟩
 /-- the round trip's hypotheses are satisfiable on a table with tags, options and a weight -/
 example : C05Text.TextOK C05Text.exRoute C05Text.exTarget := C05Text.exTextOK
+
+/-! round 3 -/
+def pfG : ParseFloat := fun s =>
+  if s == "nan".toList then some .nan else if s == "0.5".toList then some (.fin (1/2)) else none
+
+/-- CRLF, a comment, a `del`, an option without value -/
+def textG : Str :=
+  "route add s h/ http://a:1/ opts \"register=foo strip=/x\"\r\n# c\nroute del x\nroute add t h/ http://b:1/ weight 0.5 opts \"register\"\n".toList
+
+/-- `aliases_agree_with_parse` is not vacuous: three definitions, two names (the second one empty) -/
+example : (match parse pfG textG with | .ok ds => ds.length == 3 | _ => false) = true := by decide +kernel
+example : (match parseAliases pfG textG with | .ok ns => ns == ["foo".toList, []] | _ => false) = true := by
+  decide +kernel
+
+def textN : Str := "route add s h/ http://a:1/\nroute weight s h/ weight nan\nroute del s".toList
+
+/-- a non-finite weight: `Parse` (model over ℚ) stops at line 2, the total model answers `invalid weight`, and
+`ParseAliases` reads the text without complaint -/
+example : (match parse pfG textN with | .error (.nonFinite 2 .nan) => true | _ => false) = true := by decide +kernel
+example : (match loadTableW envW pfG textN with | .error (.cmd .invalidWeight) => true | _ => false) = true := by
+  decide +kernel
+example : (match parseAliases pfG textN with | .ok [] => true | _ => false) = true := by decide +kernel
+/-- … and the earlier failing command wins: a `weight` without match before the non-finite one -/
+example : (match loadTableW envW pfG ("route weight s h/ weight 0.5\n".toList ++ textN) with
+    | .error (.cmd (.table .noMatch)) => true | _ => false) = true := by decide +kernel
+
+/-- derived fields: `+301` is a redirect code, `200` and `3x1` are not; sorting the options keeps them -/
+example : (derive [("redirect".toList, "+301".toList), ("host".toList, "dst".toList)]).redirect = 301 ∧
+    (derive [("redirect".toList, "200".toList)]).redirect = 0 ∧ (derive [("redirect".toList, "3x1".toList)]).redirect = 0 ∧
+    (derive [("tlsskipverify".toList, "true".toList)]).tlsSkip = true ∧ (derive [("tlsskipverify".toList, "TRUE".toList)]).tlsSkip = false ∧
+    derive (sortOpts [("strip".toList, "/a".toList), ("auth".toList, "b".toList)]) =
+      derive [("strip".toList, "/a".toList), ("auth".toList, "b".toList)] := by decide +kernel
+
+/-- the admin listing of a two-host table: three targets, hosts ascending; `?raw` reloads like `String()` -/
+example : (apiRoutes C05Rebuild.tab0).length = 3 ∧ ((apiRoutes C05Rebuild.tab0).map (·.host)).head? = some "g".toList := by
+  decide +kernel
+example : (match loadTable envW pfW (apiRaw C05Rebuild.tab0), loadTable envW pfW (render C05Rebuild.tab0) with
+    | .ok a, .ok b => a == b && !a.isEmpty | _, _ => false) = true := by decide +kernel
 end examples
 
 end Fabio.Props.C05
